@@ -48,6 +48,10 @@ def enclosing(text: str) -> list:
             first = datetime.date.fromisocalendar(y, w, int(bits[2]) if len(bits) > 2 else 1)
             last = first if len(bits) > 2 else first + datetime.timedelta(days=6)
             return sorted({str(first.year), str(last.year), f"{first.year}-{first.month:02d}", f"{last.year}-{last.month:02d}"})
+        if text.startswith("year:") and text.count(":") == 1:
+            # a rolling year: starts in one calendar year, ends in the next
+            y, m = int(text[5:9]), int(text[10:12])
+            return sorted({str(y), str(y + 1), f"{y:04d}-{m:02d}"}) if m > 1 else [str(y)]
         bits = text.split("-")
         if len(bits) == 1 and bits[0].isdigit():
             return [text]
@@ -140,6 +144,26 @@ def generate(seed: int, tier: str) -> dict:
                 ops.append({"do": ["get_array", i[0], i[1]]})
                 continue
         ops.append({"do": gen_request(orr, world)})
+    if changes_inputs and chance(orr, 0.5):
+        # make sure some input lies on a period that belongs to two calendar years (a week
+        # around New Year, a rolling year), when a variable can hold one
+        cands = [v for v in world["variables"] if v["unit"] in ("week", "year")]
+        if cands:
+            v = pick(orr, cands)
+            per = pick(orr, ["2019-W01", "2020-W01", "2015-W53", "2020-W53", "2026-W01"] if v["unit"] == "week" else ["year:2018-03", "year:2017-07", "year:2018-12"])
+            if not any(i[0] == v["name"] and i[1] == per for i in inputs):
+                inputs.append([v["name"], per, [gen_value(orr, v, world) for _ in range(orr.randint(1, 3))]])
+    if changes_inputs and inputs and chance(orr, 0.4):
+        # corrected, then withdrawn, then looked at again: the two writes may have met
+        # different memory pressure (one copy in each store)
+        i = pick(orr, inputs)
+        if i[1] != "ETERNITY":
+            spec = next(v for v in world["variables"] if v["name"] == i[0])
+            trio = [{"do": ["set_input", i[0], i[1], [gen_value(orr, spec, world) for _ in range(orr.randint(1, 3))]]},
+                    {"do": ["delete_arrays", i[0], i[1]]}, {"do": ["get_array", i[0], i[1]]}]
+            at = sorted(orr.randrange(len(ops) + 1) for _ in range(3))
+            for k, op in zip(reversed(at), reversed(trio)):
+                ops.insert(k, op)
     straddlers = [i for i in inputs if len({e for e in enclosing(i[1]) if len(e) == 4}) == 2]
     if changes_inputs and straddlers and chance(orr, 0.7):
         # an input on a week that belongs to two calendar years: deleting either year
@@ -304,7 +328,10 @@ def run_config(scn, world: World, cfg: dict, res: Result, H: History, reference=
             # C17.equal ---------------------------------------------------------
             if reference is not None:
                 ref_out, ref_fired = reference[step]
-                observes_cache = op["do"][0] == "get_array" and (op["do"][1], _pstr(op["do"][2])) not in held
+                # (a configuration that keeps every value cached somewhere holds exactly what
+                # the plain run holds: there get_array is comparable whatever it looks at)
+                may_not_cache = bool((cfg.get("memory") or {}).get("drop") or cfg.get("blacklist") or cfg.get("opt_out"))
+                observes_cache = may_not_cache and op["do"][0] == "get_array" and (op["do"][1], _pstr(op["do"][2])) not in held
                 # get_array on something that is not a held input observes the cache
                 # itself, which "do not cache" settings change by design
                 if not fired and not ref_fired and not observes_cache:
